@@ -299,6 +299,7 @@ func (m *Manager) manageReader() {
 			// soft cancel that raced the invoke). drop the packet instead of
 			// waiting, which would stop all reading on the connection.
 			if pkt.ID.Stream != invoked {
+				drpcdebug.Event(m, "rd.orphan", pkt.ID.Stream)
 				break
 			}
 
